@@ -7,6 +7,7 @@
 #include "values.hpp"
 
 #include <cntgs/contiguous.hpp>
+#include <cstring>
 
 #include <algorithm>
 #include <array>
@@ -596,7 +597,11 @@ struct Config
         else if (op == "newdef")
         {  // newdef vK : default-constructed vector
             int k = vidx(t[1]);
-            vec[k].v = std::make_unique<Vector>();
+            // default-INITIALISATION (`Vector v;`, `new Vector`) in storage full of junk: members without an initialiser of
+            // their own would keep the junk (value-initialisation `Vector{}` zero-fills first and hides that)
+            void* raw = ::operator new(sizeof(Vector));
+            std::memset(raw, 0xAB, sizeof(Vector));
+            vec[k].v.reset(::new (raw) Vector);
             vec[k].oracle.clear();
             vec[k].fixed.assign(LT::CONTIGUOUS_FIXED_SIZE_COUNT, 0);
             vec[k].oracle_valid = true;
@@ -946,6 +951,27 @@ struct Config
                     }
                 }
             if (x.end() - x.begin() != n || cx.cend() - cx.cbegin() != n) violation("C11:end-minus-begin");
+            // assignment (not construction) of iterators, same type and converting, from iterators into ANOTHER vector: the
+            // assigned iterator must denote that vector's elements afterwards
+            for (std::size_t b = 0; b < vec.size(); ++b)
+            {
+                if (static_cast<int>(b) == a || !vec[b].v || vec[b].v->size() == 0) continue;
+                Vector& y = *vec[b].v;
+                const Vector& cy = y;
+                for (std::size_t k = 0; k < y.size(); ++k)
+                {
+                    typename Vector::const_iterator ci = cx.begin();
+                    ci = y.begin() + static_cast<std::ptrdiff_t>(k);  // converting assignment
+                    typename Vector::iterator mi = x.begin();
+                    mi = y.begin() + static_cast<std::ptrdiff_t>(k);  // same-type assignment
+                    typename Vector::const_iterator cc = cx.cbegin();
+                    cc = cy.cbegin() + static_cast<std::ptrdiff_t>(k);
+                    const auto want = y[k].data_begin();
+                    if ((*ci).data_begin() != want || ci->data_end() != y[k].data_end()) violation("C11:converting-iterator-assignment");
+                    if ((*mi).data_begin() != want || (*cc).data_begin() != want) violation("C11:iterator-assignment");
+                    if (ci.index() != k || (ci - cy.begin()) != static_cast<std::ptrdiff_t>(k)) violation("C11:iterator-assignment-index");
+                }
+            }
             out << "iter n=" << n << " pairs=" << checked << "\n";
             return;
         }
